@@ -2,4 +2,5 @@
 EXTENDS Combinators
 ShapesQuick == {<<>>, <<2>>, <<3>>, <<2, 1>>, <<2, 3>>}
 ShapesFull == {<<>>, <<1>>, <<2>>, <<3>>, <<1, 2>>, <<2, 1>>, <<2, 2>>, <<2, 3>>, <<3, 2>>, <<1, 2, 2>>, <<2, 1, 2>>, <<2, 2, 1>>}
+ShapesChains == {<<2>>, <<2, 1>>}
 ====
